@@ -269,6 +269,7 @@ func (m *recoveryMessage) GetCommits(p dbft.ConsensusPayload[util.Uint256], vali
 	for i, c := range m.commitPayloads {
 		cc := fromPayload(commitType, p.(*Payload), &commit{signature: c.Signature})
 		cc.message.ValidatorIndex = c.ValidatorIndex
+		cc.message.ViewNumber = c.ViewNumber
 		cc.Sender = validators[c.ValidatorIndex].(*keys.PublicKey).GetScriptHash()
 		cc.Witness.InvocationScript = c.InvocationScript
 		cc.Witness.VerificationScript = getVerificationScript(c.ValidatorIndex, validators)
